@@ -11,5 +11,5 @@ Pool == All(MaxRecs) \cup UNION {Family(ks) : ks \in Deep}
 GInit == g \in Pool
 GNext == UNCHANGED g
 GSpec == GInit /\ [][GNext]_g
-Emit == PrintT("BEH " \o ToJson([tag |-> g.tag, d |-> g.d, cls |-> Classify(g.d, QLabels).cls])) /\ FALSE
+Emit == PrintT("BEH " \o ToJson([tag |-> g.tag, d |-> g.d, cls |-> ClassifyT(g.d, QLabels).cls])) /\ FALSE
 =============================================================================
